@@ -42,7 +42,7 @@ Proof.
   destruct (Ascii.eqb c "{").
   - pose proof (take_name_len r) as Hl. destruct (take_name r) as [n r']. simpl in Hl. f_equal. apply IH; lia.
   - destruct (Ascii.eqb c "*").
-    + destruct r as [|d r1]; [reflexivity|]. simpl in H1, H2. destruct (Ascii.eqb d "{").
+    + destruct r as [|d r1]; [f_equal; apply IH; simpl; lia|]. simpl in H1, H2. destruct (Ascii.eqb d "{").
       * pose proof (take_name_len r1) as Hl. destruct (take_name r1) as [n r']. simpl in Hl. f_equal. apply IH; lia.
       * f_equal. apply IH; simpl; lia.
     + f_equal. apply IH; lia.
@@ -121,7 +121,7 @@ Proof.
         rewrite Hf in Hc. apply (IH r2 (false, VAfter)); [simpl in Hl; rewrite app_length in Hl; simpl in Hl; lia|right; reflexivity|exact Hc].
       * simpl in Hc. destruct (Ascii.eqb_spec c "/") as [->|N3].
         -- eapply Hstatic; [simpl; reflexivity|left; reflexivity].
-        -- eapply Hstatic; [simpl|left; reflexivity].
+        -- apply (Hstatic (h, VDef)); [|left; reflexivity]. simpl.
            destruct (Ascii.eqb_spec c "/"); [contradiction|]. destruct (Ascii.eqb_spec c "{"); [contradiction|].
            destruct (Ascii.eqb_spec c "*"); [contradiction|]. reflexivity.
   - simpl in Hc. destruct (Ascii.eqb_spec c "/") as [->|N1].
@@ -152,11 +152,12 @@ Lemma tokenize_head a s : exists t ts, tokenize (a :: s) = t :: ts /\
   end.
 Proof.
   rewrite tokenize_cons. destruct (Ascii.eqb_spec a "{") as [->|N1].
-  - destruct (take_name s) as [n r']. eauto.
+  - destruct (take_name s) as [n r']. do 2 eexists; split; reflexivity.
   - destruct (Ascii.eqb_spec a "*") as [->|N2].
-    + destruct s as [|d r1]; [eauto|]. destruct (Ascii.eqb d "{"); [|eauto].
-      destruct (take_name r1) as [n r']. eauto.
-    + eauto.
+    + destruct s as [|d r1]; [do 2 eexists; split; reflexivity|].
+      destruct (Ascii.eqb d "{"); [|do 2 eexists; split; reflexivity].
+      destruct (take_name r1) as [n r']. do 2 eexists; split; reflexivity.
+    + do 2 eexists; split; reflexivity.
 Qed.
 
 Theorem apart_no_conflict p q : apart p q -> patterns_conflict p q = false /\ p <> q.
@@ -173,8 +174,8 @@ Proof.
   - split.
     + rewrite !tokenize_app by exact Hc. rewrite tokens_conflict_app.
       destruct (tokenize_head a s) as [t1 [ts1 [-> H1]]]. destruct (tokenize_head b s') as [t2 [ts2 [-> H2]]].
-      simpl. destruct t1, t2; simpl; subst; try reflexivity; try congruence.
-      destruct (Ascii.eqb_spec c c0); [congruence|reflexivity].
+      simpl. destruct t1 as [c1|n1|n1], t2 as [c2|n2|n2]; simpl; subst; try reflexivity; try congruence.
+      destruct (Ascii.eqb_spec a b); [congruence|reflexivity].
     + intros E. apply app_inv_head in E. congruence.
 Qed.
 
@@ -198,7 +199,7 @@ Proof.
     destruct st.
     + (* VDef: c = "{" *)
       exists u, [], false. simpl in H. deqb; try destruct h; simpl in *; try congruence.
-      all: split; [rewrite app_nil_r; reflexivity|]; split; [rewrite E; reflexivity|tauto].
+      all: split; [try rewrite app_nil_r; reflexivity|]; split; [rewrite E; reflexivity|tauto].
     + (* VStar: c = "{" after "*" *)
       destruct (vstar_split u s0 Hs) as [u' [-> Hc']]; [rewrite E; reflexivity|].
       exists u', [], true. simpl in H. deqb; try congruence.
@@ -206,8 +207,8 @@ Proof.
     + (* VName: the name goes on *)
       destruct (IH s0 Hs) as [u0 [nm [catch [-> [Hc' Hni]]]]]; [rewrite E; reflexivity|].
       exists u0, (nm ++ [c]), catch. split; [rewrite <- !app_assoc; reflexivity|]. split; [exact Hc'|].
-      intros Hin. apply in_app_or in Hin. destruct Hin as [Hin|[<-|[]]]; [contradiction|].
-      simpl in H. congruence.
+      intros Hin. apply in_app_or in Hin. destruct Hin as [Hin|[Ec|[]]]; [contradiction|].
+      subst c. simpl in H. congruence.
     + simpl in H. deqb; try destruct h; simpl in *; congruence.
     + simpl in H. congruence.
 Qed.
